@@ -15,6 +15,7 @@ func init() {
 			ruleQueueDiscipline(c, "C04.9")
 			ruleErrorDiscipline(c, "C04.10")
 			ruleCloseSafety(c, "C04.11")
+			ruleRegistryPairing(c, "C04.12")
 		},
 		Explain:    "Static necessary conditions of tunnel termination reaching both ends: every client loop exit closes the channel with the cause; the server loop defers the cancel of the handlers' root context, derived from the carrier context; the channel close sets the flag, stores the cause, cancels every stream and the channel context, after running the tear-down; new RPCs test the flag in the same critical section; every blocking wait in the package has a release edge fired by the termination functions (A10), with the stream contexts cancelled on every finishing path; close paths reach the carrier (tear-down CloseSend, Stop: CloseSend every instance then wait; Add/Done pairing); sticky errors after finish. Necessary, not sufficient for 'nothing hangs'.",
 		Assume:     []string{"the transport reports failures to Recv", "context cancellation wakes Done() waiters"},
@@ -49,6 +50,7 @@ func init() {
 			ruleShortLocks(c, "C10.8")
 			rulePlumbing(c, "C10.9", "closing")
 			ruleLockBalance(c, "C10.10")
+			ruleGracefulNeverClosesEarly(c, "C10.11")
 		},
 		Explain:    "Static necessary conditions of graceful shutdown: the table insert is gated by the shutting-down predicate whose true edge is a stream-level Unavailable; the refused id is recorded first so the refusal cannot abort the tunnel; the refusal reply is sent off the loop, once; the shutdown entry points set exactly what the predicates read; Stop's structure (state, CloseSend all, wait; Add/Done pairing); and every WaitGroup wait has a release edge — GracefulStop has none (known finding F-7).",
 		Assume:     []string{"sync.WaitGroup and atomic.Bool semantics"},
@@ -68,6 +70,8 @@ func init() {
 			ruleLocalFailureNotifiesPeer(c, "C14.10")
 			ruleInvokeAborts(c, "C14.11")
 			ruleBrokenStreamEndsRPC(c, "C14.12")
+			ruleChannelClose(c, "C14.13")
+			ruleShortLocks(c, "C14.14")
 		},
 		Explain:    "Static necessary conditions of 'nothing left behind': every go statement falls in a verified termination class (straight-line sender, context watcher whose context is cancelled on every finishing path, receive loop, dispatch with deferred finish); every table insert has its delete on every finishing path (both ends) and on first-send failure; stream contexts are cancelled on every finishing path; cancel empties the queue; no run-time writes to package-level state; registry add/deferred-remove pairing.",
 		Assume:     []string{"handlers return when their context is cancelled and their blocking operations are released (C04.4)"},
